@@ -71,20 +71,30 @@ def schemeOk (a : Abstract) (q : OReq) : Bool :=
     else true
   else true
 
+/-- request types: a document request is also accepted by any exception -/
+def refTypeOk (a : Abstract) (opts : List NOpt) (tyBit : Nat) : Bool :=
+  if tyBit == FROM_DOCUMENT then typeAllowed a opts FROM_DOCUMENT || a.exception else typeAllowed a opts tyBit
+
+/-- party options -/
+def refPartyOk (opts : List NOpt) (thirdParty : Bool) : Bool :=
+  let only3p := opts.any (fun o => o == .thirdParty true || o == .firstParty false)
+  let only1p := opts.any (fun o => o == .thirdParty false || o == .firstParty true)
+  (thirdParty || !only3p) && (!thirdParty || !only1p)
+
+/-- `domain=`: some included domain covers the initiator, no excluded one does -/
+def refIncOk (opts : List NOpt) (srcHost : Str) : Bool :=
+  match includedDomains opts with
+  | none => true
+  | some ds => !srcHost.isEmpty && ds.any (fun d => covers d srcHost)
+def refExcOk (opts : List NOpt) (srcHost : Str) : Bool :=
+  match excludedDomains opts with
+  | none => true
+  | some ds => srcHost.isEmpty || !ds.any (fun d => covers d srcHost)
+
 def refOptions (a : Abstract) (q : OReq) : Bool :=
   let opts := a.options.getD []
   let badfilter := opts.any (· == .badfilter)
-  let typeOk := if q.tyBit == FROM_DOCUMENT then typeAllowed a opts FROM_DOCUMENT || a.exception
-                else typeAllowed a opts q.tyBit
-  let only3p := opts.any (fun o => o == .thirdParty true || o == .firstParty false)
-  let only1p := opts.any (fun o => o == .thirdParty false || o == .firstParty true)
-  let partyOk := (q.thirdParty || !only3p) && (!q.thirdParty || !only1p)
-  let incOk := match includedDomains opts with
-    | none => true
-    | some ds => !q.srcHost.isEmpty && ds.any (fun d => covers d q.srcHost)
-  let excOk := match excludedDomains opts with
-    | none => true
-    | some ds => q.srcHost.isEmpty || !ds.any (fun d => covers d q.srcHost)
-  !badfilter && typeOk && partyOk && schemeOk a q && incOk && excOk
+  !badfilter && refTypeOk a opts q.tyBit && refPartyOk opts q.thirdParty && schemeOk a q
+    && refIncOk opts q.srcHost && refExcOk opts q.srcHost
 
 end Adb.Spec
